@@ -2,6 +2,7 @@ package engine
 
 import (
 	"fmt"
+	"os"
 	"time"
 
 	"github.com/anishathalye/porcupine"
@@ -63,7 +64,9 @@ func RunOne(p Profile, verifSeed uint64, i int, opt Options) *RunResult {
 	g.RunChaos()
 	if c.viol == nil {
 		if c.vg != nil {
-			RunFollowerClose(c)
+			if !RunFollowerClose(c) && c.viol == nil && os.Getenv("VERIF_CLOSEDEBUG") != "" {
+				res.Final = "close did not catch up\n" + c.CloseDebug()
+			}
 		} else {
 			res.HealAt = len(c.trace)
 			res.Heal = RunHeal(c, Mix(seed, 0x4ea1))
@@ -84,7 +87,7 @@ func fill(c *Cluster, res *RunResult) {
 	res.SimTicks = c.stats.Ticks
 	res.ReadyLog = c.readyLog
 	if c.viol != nil {
-		res.Final = c.DebugState()
+		res.Final += c.DebugState()
 		if rl := c.RaftLog(); len(rl) > 0 {
 			if len(rl) > 150 {
 				rl = rl[len(rl)-150:]
